@@ -12,7 +12,7 @@ use serde_json::{json, Value};
 use std::io::Write;
 use vph::refdec;
 
-pub const RULE: &str = "for each writer front-end × declared/undeclared total × seek policy {off, every frame, seconds} × padding {default 4096, none, 20} × channels/depth {1×16, 2×8, 2×24} × sink {whole-buffer writes, at most 1 byte per write call, at most 7} (+ STREAMINFO-referenced parameters: 10-bit, 17-bit at rate 0, 100001 Hz): 3.5 blocks of 16 PCM frames are written without finalize, plus histories where the caller supplies more or fewer PCM frames than it declared ((supplied, declared) ∈ {(56,40),(48,40),(56,33),(40,17),(33,32),(56,100)}) and stops at the first error; for EVERY byte prefix of the emitted stream (a superset of every write-call boundary) each of 9 reader front-ends (byte LE/BE read + fill_buf, sample fill_buf / read(7) / read(4099) / iterator, channel whole and half-buffer consumption) must deliver exactly the PCM of the frames that lie completely inside the prefix (frame extents from the independent decoder run on a copy whose provisional total is cleared, i.e. without trusting STREAMINFO), in order, and then report end of data or an error; a prefix ending inside the metadata yields no samples";
+pub const RULE: &str = "for each writer front-end × declared/undeclared total × seek policy {off, every frame, seconds} × padding {default 4096, none, 20} × channels/depth {1×16, 2×8, 2×24} × sink {whole-buffer writes, at most 1 byte per write call, at most 7} (+ STREAMINFO-referenced parameters: 10-bit, 17-bit at rate 0, 100001 Hz): 3.5 blocks of 16 PCM frames are written without finalize, plus declared totals of 2^32, 2^32+100, 2^32+23, 2^33, 2^34+1000 and 2^36−1 PCM frames (56 supplied), plus histories where the caller supplies more or fewer PCM frames than it declared ((supplied, declared) ∈ {(56,40),(48,40),(56,33),(40,17),(33,32),(56,100)}) and stops at the first error; for EVERY byte prefix of the emitted stream (a superset of every write-call boundary) each of 9 reader front-ends (byte LE/BE read + fill_buf, sample fill_buf / read(7) / read(4099) / iterator, channel whole and half-buffer consumption) must deliver exactly the PCM of the frames that lie completely inside the prefix (frame extents from the independent decoder run on a copy whose provisional total is cleared, i.e. without trusting STREAMINFO), in order, and then report end of data or an error; a prefix ending inside the metadata yields no samples";
 pub const ASSUMPTIONS: &[&str] = &["the pre-finalize write log is verified to be append-only at run time (otherwise prefixes would not be the crash images and the check reports a machinery note)", "torn writes inside one write call are covered because every byte prefix is explored; reordering of writes by the OS is out of scope (no syncs exist to order against)"];
 pub fn bounds(_quick: bool) -> Value {
     json!({"prefixes": "every byte prefix", "blocks": "3 complete frames emitted + half a block buffered"})
@@ -151,6 +151,13 @@ fn configs() -> Vec<(WriterKind, Opt, Sig, usize, Option<usize>, usize)> {
         for declared in [true, false] {
             for sig in [Sig { rate: 44100, bps: 10, ch: 1 }, Sig { rate: 100001, bps: 16, ch: 2 }, Sig { rate: 0, bps: 17, ch: 1 }] {
                 v.push((w, Opt { declared, seek: Seek::Off, pad: Pad::Size(20), ..Opt::base16() }, sig, 56, declared.then_some(56), 0));
+            }
+        }
+        // very long declared totals (the 36-bit field): 2^32 and beyond, where 32-bit arithmetic on "remaining samples" wraps
+        for declared in [1usize << 32, (1 << 32) + 100, (1 << 32) + 16 + 7, 1 << 33, (1 << 34) + 1000, (1 << 36) - 1] {
+            // (no seek table: with a table the constructor walks every future frame of the declared length — 2^32 iterations)
+            for sig in [Sig { rate: 44100, bps: 16, ch: 1 }, Sig { rate: 192000, bps: 8, ch: 2 }] {
+                v.push((w, Opt { declared: true, seek: Seek::Off, pad: Pad::Size(20), ..Opt::base16() }, sig, 56, Some(declared), 0));
             }
         }
         // the caller supplies more (or fewer) PCM frames than it declared and the encode stops there
